@@ -33,6 +33,7 @@ def parseKwName (s : String) : KwName :=
   | "name" => .attr .name | "optional" => .attr .optional | "default" => .attr .default
   | "validators" => .attr .validators | "descent_validators" => .attr .descentValidators
   | "properties" => .properties
+  | "field_schema" => .attr .fieldSchema
   | _ => .bogus
 
 def parseKwVal (n : KwName) (j : Json) : Except String KwVal :=
@@ -44,6 +45,12 @@ def parseKwVal (n : KwName) (j : Json) : Except String KwVal :=
       | _ => throw "bad pair")
     return .pairs ps
   | .attr .validators, j | .attr .descentValidators, j => do return .labels (← (← arr j).mapM nat)
+  | .attr .fieldSchema, j => do
+    let ms ← (← arr j).mapM (fun p => do
+      match (← arr p) with
+      | [n, o] => pure ((← chars n), (← bool o))
+      | _ => throw "bad member")
+    return .members ms
   | _, .null => pure .none
   | _, .bool b => pure (.bool b)
   | _, .str s => pure (.str s.toList)
@@ -89,6 +96,8 @@ def ofItem : Item → Json
   | .str s => ofChars s
   | .gen name fmt opt => obj [("gen", Json.bool true), ("name", ofChars name), ("optional", Json.bool opt),
                               ("format", ofChars fmt)]
+  | .user name opt => obj [("gen", Json.bool false), ("name", ofChars name), ("optional", Json.bool opt),
+                           ("format", Json.str "%i")]
 
 def ofAtom : Val → Json
   | .none => Json.null
@@ -152,6 +161,7 @@ def instSnapshot (σ : State) (c : ClassId) (kw : List (KwName × KwVal)) : Json
   if σ.kindOf c == .compound then obj [] else
   obj (kw.filterMap (fun p => match p.1, p.2 with
     | .attr a, .labels ls => some (attrName a, ofList ofNat ls)
+    | .attr a, .members ms => some (attrName a, ofList ofItem (ms.map (fun m => Item.user m.1 m.2)))
     | .attr a, v => some (attrName a, cval σ a (some (atomOf v)))
     | .properties, .pairs ps =>
       some ("properties", ofList (fun (kv : C06.Str × Int) => Json.arr #[ofChars kv.1, ofInt kv.2])
